@@ -423,7 +423,7 @@ fn parse_str_to_newer_args(input: &str) -> Option<(String, String)> {
         return Some(("c".to_string(), "m".to_string()));
     }
 
-    let re = Regex::new(r"-newer([aBcm])([aBcmt])").unwrap();
+    let re = Regex::new(r"-newer([aBcm])([aBcmt])$").unwrap();
     if let Some(captures) = re.captures(input) {
         let x = captures.get(1)?.as_str().to_string();
         let y = captures.get(2)?.as_str().to_string();
